@@ -57,6 +57,14 @@ def corpus():
                          dict(op='remove_via', rule='/s', verb='DELETE')] + _probe_all(['/s'], ['GET', 'POST', 'DELETE', 'BREW'])
                    + [dict(op='remove_via', rule='/s', verb='POST', path='/s')] + _probe_all(['/s'], ['GET', 'POST', 'DELETE', 'BREW'])
                    + [dict(op='remove_via', rule='/s', verb='put')] + _probe_all(['/s'], ['GET', 'BREW'])))
+    # the Route API used directly: 'get' stays lower-case (never dispatched, but listed in Allow); Route.__call__; meta
+    cs.append(dict(cmds=[dict(op='add', rule='/s', methods='POST', h=1, via='router_add', meta=7),
+                         dict(op='route_method', rule='/s', methods='get', h=2),
+                         dict(op='route_method', rule='/s', methods=['POST', 'PUT'], h=3),
+                         dict(op='route_method', rule='/s', methods=['POST', 'PUT'], h=4, overwrite=True)]
+                   + _probe_all(['/s'], ['GET', 'POST', 'PUT', 'BREW'])
+                   + [dict(op='call_route', rule='/s', verb=v) for v in ('get', 'GET', 'PUT')]
+                   + [dict(op='call_route', rule='/t', verb='GET'), dict(op='by_rule', rule='/s', form='dict')]))
     # HEAD registered explicitly wins over GET
     cs.append(dict(cmds=[dict(op='add', rule='/s', methods=['GET'], h=1), dict(op='add', rule='/s', methods=['HEAD'], h=2)]
                    + _probe_all(['/s'])))
@@ -69,10 +77,14 @@ def _history(rng, rule, h0):
         r = rng.random()
         ms = rng.sample(['GET', 'HEAD', 'POST', 'PUT', 'ANY', 'DELETE'], rng.randrange(1, 4))
         ms = [m.lower() if rng.random() < 0.2 else (m.capitalize() if rng.random() < 0.1 else m) for m in ms]
-        if r < 0.5:
-            cmds.append(dict(op='add', rule=rule, methods=ms, h=h0 + k))
+        if r < 0.42:
+            cmds.append(L.vary_add(rng, dict(op='add', rule=rule, methods=ms, h=h0 + k)))
+        elif r < 0.6:
+            cmds.append(L.vary_add(rng, dict(op='add', rule=rule, methods=ms, h=h0 + k, overwrite=True)))
         elif r < 0.7:
-            cmds.append(dict(op='add', rule=rule, methods=ms, h=h0 + k, overwrite=True))
+            # the Route API used directly: no upper-casing, no parameter names; a plain str is one method
+            cmds.append(dict(op='route_method', rule=rule, methods=ms if rng.random() < 0.7 else ms[0], h=h0 + k,
+                             overwrite=rng.random() < 0.5))
         elif r < 0.85:
             cmds.append(dict(op='remove_method', rule=rule, methods=ms))
         else:
@@ -104,7 +116,11 @@ def gen(rng, n):
         for rule, hit, miss in picks:
             paths += [hit, miss]
         verbs = rng.sample(VERBS, 5) + ['HEAD', 'GET']
-        yield dict(cmds=inter + _probe_all(paths, verbs))
+        tail = []
+        for rule, hit, miss in picks:
+            tail += [dict(op='call_route', rule=rule, verb=v) for v in rng.sample(VERBS, 3)]      # Route.__call__
+            tail.append(dict(op='by_rule', rule=rule, form=rng.choice(['set', 'dict', 'routekey'])))
+        yield dict(cmds=inter + _probe_all(paths, verbs) + tail)
 
 
 def thorough():
@@ -118,6 +134,10 @@ def thorough():
 
 def run_impl(case):
     return L.run_script(case)
+
+
+def project(obs, case):
+    return L.strip(obs)
 
 
 def encode(case):
@@ -134,6 +154,7 @@ def oracle(case, obs):
         return 'harness: %s' % (obs,)
     hit_of = {rule: hit for rule, hit, miss in RULES}
     tables = {}      # rule -> {METHOD: h}
+    metas = {}       # rule -> {METHOD: meta}
     for c, o in zip(case['cmds'], obs):
         if c['op'] == 'add':
             ms = [m.upper() for m in c['methods']]
@@ -147,6 +168,41 @@ def oracle(case, obs):
                 return 'add %s on %s failed with %s' % (ms, c['rule'], o)
             for m in ms:
                 t[m] = c['h']
+                metas.setdefault(c['rule'], {})[m] = c.get('meta')
+        elif c['op'] == 'route_method':
+            t = tables.get(c['rule'])
+            if t is None:
+                if o != 0:
+                    return 'route_method on an unregistered rule answered %s' % o
+                continue
+            ms = c['methods'] if isinstance(c['methods'], list) else [c['methods']]
+            taken = [m for m in ms if m in t]
+            if not c.get('overwrite') and taken:
+                if o != 5:
+                    return 'route.add_method %s on %s with %s taken: expected RouteMethodError, got %s' % (ms, c['rule'], taken, o)
+                continue
+            if o != 0:
+                return 'route.%s_method %s on %s failed with %s' % ('set' if c.get('overwrite') else 'add', ms, c['rule'], o)
+            for m in ms:
+                t[m] = c['h']
+                metas.setdefault(c['rule'], {})[m] = None
+        elif c['op'] == 'call_route':
+            t = tables.get(c['rule'])
+            want = 'noroute' if t is None else (['called', t[c['verb']]] if c['verb'] in t else 'nomethod')
+            if o != want:
+                return 'route(%r) on %s: expected %s, got %s' % (c['verb'], c['rule'], want, o)
+        elif c['op'] == 'by_rule':
+            t = tables.get(c['rule'])
+            if (t is None) != (o is None):
+                return 'router[%s] is %s but the rule is %sregistered' % (c['rule'], o, '' if t is not None else 'not ')
+            if t is not None:
+                got = {''.join(map(chr, m[0])): m[1] for m in o['methods']}
+                if got != t:
+                    return 'router[%s].methods = %s, registered %s' % (c['rule'], got, t)
+                gm = {k: v for k, v in o.get('metas', {}).items()}
+                wm = {k: v for k, v in metas.get(c['rule'], {}).items() if k in t and v is not None}
+                if gm != wm:
+                    return 'meta of the methods of %s: %s, registered with %s' % (c['rule'], gm, wm)
         elif c['op'] == 'remove_method':
             t = tables.get(c['rule'])
             if t is not None:
@@ -196,7 +252,7 @@ def oracle(case, obs):
 
 
 def nontrivial(case, obs):
-    edits = any((c['op'] == 'add' and (c.get('overwrite') or o == 5)) or c['op'] in ('remove_method', 'remove_via')
+    edits = any((c['op'] == 'add' and (c.get('overwrite') or o == 5)) or c['op'] in ('remove_method', 'remove_via', 'route_method')
                 for c, o in zip(case['cmds'], obs))
     saw405 = any(c['op'] == 'dispatch' and o['wsgi'].get('status') == 405 for c, o in zip(case['cmds'], obs))
     fb = any(c['op'] == 'dispatch' and o['direct'].get('kind') == 200
@@ -214,6 +270,8 @@ def classify(case, obs):
     for c, o in zip(case['cmds'], obs):
         if c['op'] == 'dispatch':
             st.add(o['wsgi'].get('status'))
+        elif c['op'] == 'call_route':
+            st.add('call')
     rej = any(c['op'] == 'add' and o == 5 for c, o in zip(case['cmds'], obs))
     return 'statuses=%s%s' % (sorted(st, key=str), '/rejected-add' if rej else '')
 
